@@ -124,6 +124,13 @@ func genC02(t *rapid.T) c02Case {
 			}
 			renamed["inc-"+n] = sm
 		}
+		// the included project has an environment of its own (.env): valueless entries and references take
+		// their value from it, whichever of its services is visited first
+		renamed["inc-plain"] = map[string]any{"image": "plain"}
+		renamed["inc-pass-list"] = map[string]any{"image": "p", "environment": []any{"INC_PASS", "INC_REF=${INC_PASS}-ref", "INC_LIT=lit"}}
+		renamed["inc-pass-map"] = map[string]any{"image": "p", "environment": map[string]any{"INC_PASS": nil, "INC_TIER": nil, "INC_LIT": "lit"}}
+		renamed["inc-hostname"] = map[string]any{"image": "p", "hostname": "${INC_TIER}"}
+		cs.Files = append(cs.Files, memFile{Name: "inc/.env", Content: "INC_PASS=from-included-env\nINC_TIER=gold\n"})
 		cs.Files = append(cs.Files, memFile{Name: "inc/compose.yaml", Content: emitYAML(map[string]any{"services": renamed}, nil)})
 	}
 	seed := rapid.IntRange(1, 1<<20).Draw(t, "permseed")
